@@ -175,15 +175,16 @@ def trimCRLF (b : Bytes) : Bytes :=
 
 /-- `strconv.Atoi`: optional sign, at least one digit, only digits, value must fit an int64 -/
 def atoiGo (b : Bytes) : Option Int :=
-  let (neg, ds) := match b with
-    | 45 :: r => (true, r)
-    | 43 :: r => (false, r)
-    | r => (false, r)
-  if ds.isEmpty ∨ !ds.all isDigit then none
-  else
-    let v := digitsVal ds
-    if neg then (if v ≤ 9223372036854775808 then some (-(v : Int)) else none)
-    else (if v ≤ 9223372036854775807 then some (v : Int) else none)
+  match b with
+  | [] => none
+  | c :: r =>
+    let neg := c == cMinus
+    let ds := if c = cMinus ∨ c = cPlus then r else c :: r
+    if ds.isEmpty ∨ !ds.all isDigit then none
+    else
+      let v := digitsVal ds
+      if neg then (if v ≤ 9223372036854775808 then some (-(v : Int)) else none)
+      else (if v ≤ 9223372036854775807 then some (v : Int) else none)
 
 /-! ## `fmt.Fscanf(r, "%d,%d,%d\n", &seq, &off, &size)` on a reader without UnreadRune (an *os.File)
 
@@ -209,15 +210,14 @@ def scanNum (inp : Bytes) : NumRes :=
   | [] => .eof
   | c :: r =>
     if c = cNL then .err else
-    let (neg, r1) := if c = cMinus then (true, r) else if c = cPlus then (false, r) else (false, c :: r)
-    match r1 with
-    | [] => .eof                      -- `scanNumber`: notEOF after the sign
-    | _ =>
-      let ds := r1.takeWhile isDigit
-      if ds.isEmpty then .err else
-      let v := digitsVal ds
-      if neg then (if v ≤ 9223372036854775808 then .num (-(v : Int)) (r1.dropWhile isDigit) else .err)
-      else (if v ≤ 9223372036854775807 then .num v (r1.dropWhile isDigit) else .err)
+    let neg := c == cMinus
+    let r1 := if c = cMinus ∨ c = cPlus then r else c :: r
+    if r1.isEmpty then .eof else               -- `scanNumber`: notEOF after the sign
+    let ds := r1.takeWhile isDigit
+    if ds.isEmpty then .err else
+    let v := digitsVal ds
+    if neg then (if v ≤ 9223372036854775808 then .num (-(v : Int)) (r1.dropWhile isDigit) else .err)
+    else (if v ≤ 9223372036854775807 then .num v (r1.dropWhile isDigit) else .err)
 
 /-- literal `,` -/
 def scanComma (inp : Bytes) : Option Bytes :=
@@ -573,6 +573,13 @@ def SqlW.step (w : SqlW) (o : Op) : SqlW × Obs := w.stepF none o
 def SqlW.run (w : SqlW) : List Op → SqlW × List Obs
   | [] => (w, [])
   | o :: os => let (w1, ob) := w.step o; let (w2, obs) := SqlW.run w1 os; (w2, ob :: obs)
+
+/-! ## backing shared by the stores of several sessions -/
+
+/-- one directory / one database holds one entry per session id (file-name prefix, id columns of the tables);
+    an operation of the store of session `k` rewrites entry `k` only -/
+def bset {α} (l : List (String × α)) (k : String) (v : α) : List (String × α) :=
+  if l.any (·.1 == k) then l.map (fun p => if p.1 == k then (k, v) else p) else l ++ [(k, v)]
 
 /-! ## crash semantics of the file store (C17) -/
 
